@@ -1,6 +1,6 @@
 """Property -> rules mapping, level texts, assumptions."""
 from . import entries
-from .rules import canon, facade, flag, limbs, structural, total_rule, unimpl
+from .rules import canon, facade, flag, limbs, structural, table, total_rule, unimpl
 
 COMMON_ASSUMPTIONS = [
     "rustc's type checker, trait resolution, MIR construction and constant evaluation are correct "
@@ -97,7 +97,8 @@ def rules_C05(ctx):
 
 
 def rules_C09(ctx):
-    return total_for("C09", ctx) + [flag.flag(ctx, "all", {"src/base_convert.rs"})]
+    return total_for("C09", ctx) + [flag.flag(ctx, "all", {"src/base_convert.rs"}), table.alphabets(ctx),
+                                    table.prefixes(ctx)]
 
 
 def rules_C13(ctx):
